@@ -45,12 +45,53 @@ Qed.
 
 (* ... and the units of each file are acyclic (u0 -> u1 in f1; nothing in f0) *)
 
-(* flatten_terminates_refuted: whatever the fuel, the model never returns: the first round gives the imported u0 the name u1,
+(* flatten_terminates_refuted (the code before 85ba0d4, flag fx_cycle_guard = false): whatever the fuel, the model never returns: the first round gives the imported u0 the name u1,
    its reference "u1" now names itself, and the next Units::equivalent on it recurses for ever *)
 Theorem flatten_terminates_refuted : forall rounds fuel n0,
-  flatten_model rounds fuel flat_current_fixes [term_lib] term_origin n0 = FFuel.
+  flatten_model rounds fuel flat_no_cycle_guard [term_lib] term_origin n0 = FFuel.
 Proof.
   intros rounds fuel n0.
   destruct rounds as [|rounds]; [vm_compute; reflexivity|].
   destruct fuel as [|[|[|[|[|[|fuel]]]]]]; vm_compute; reflexivity.
 Qed.
+
+(* with hasUnitsCycle() consulted first (85ba0d4) the same input flattens: the self-referring u1 is "not equivalent" to the
+   dependency, the dependency is added as u1_1, and the reference is rewritten (b6a87da): u1 = [u1_1], no cycle is left *)
+Theorem flatten_cycle_guard_returns :
+  exists flat st, flatten_model 10 50 flat_current_fixes [term_lib] term_origin 100 = FOk (flat, st) /\
+    map (fun u => (u_name u, map uc_ref (u_defs u))) (m_units flat) = [("u0", []); ("u1", ["u1_1"]); ("u1_1", [])].
+Proof. eexists. eexists. split; vm_compute; reflexivity. Qed.
+
+(* ---- what still diverges with the guard (the code on HEAD): the recursion of transferUnitsRenamingIfRequired itself.
+   f0: units q imported from f1 (units_ref v); component c imported from f1.   f1: q = [v * 0.001], v = kilo metre; c with x in q, y in v.
+   v is re-used as f0's q (equivalent), the NAME q is written into the clone's q = [v], which now reads q = [q]; q is "not
+   equivalent" to anything (cyclic), so its child -- itself -- is cloned and transferred, and so on.  Acyclic import graph, acyclic
+   units in both files, resolveImports true, pre-checks pass; the library dies of stack exhaustion (hand_kf_transfer_recursion). *)
+Definition rec_lib : model :=
+  {| m_own := OLib 0; m_name := "m1";
+     m_units := [ {| u_own := OLib 0; u_name := "q"; u_imp := None;
+                     u_defs := [{| uc_ref := "v"; uc_prefix := ""; uc_exp := 1; uc_mult := inject_Z (-3) |}] |};
+                  {| u_own := OLib 0; u_name := "v"; u_imp := None;
+                     u_defs := [{| uc_ref := "metre"; uc_prefix := "kilo"; uc_exp := 1; uc_mult := 0 |}] |} ];
+     m_comps := [Comp (OLib 0) "c" None [] [{| v_oid := 10; v_name := "x"; v_units := Some "q"; v_init := "2"; v_iface := "" |};
+                                            {| v_oid := 11; v_name := "y"; v_units := Some "v"; v_init := "3"; v_iface := "" |}] []];
+     m_eqs := [] |}.
+Definition rec_origin : model :=
+  {| m_own := OOrigin; m_name := "m0";
+     m_units := [ {| u_own := OOrigin; u_name := "q"; u_imp := Some {| i_url := "f1.cellml"; i_lib := 0; i_ref := "v" |}; u_defs := [] |} ];
+     m_comps := [Comp OOrigin "top" None [] [{| v_oid := 0; v_name := "z"; v_units := Some "q"; v_init := "1"; v_iface := "" |}] [];
+                 Comp OOrigin "c" (Some {| i_url := "f1.cellml"; i_lib := 0; i_ref := "c" |}) [] [] []];
+     m_eqs := [] |}.
+
+Lemma rec_witness_acyclic : acyclic_imports [rec_lib] rec_origin (fun _ => 0) 1.
+Proof.
+  split.
+  - intros k H. cbn in H. destruct H as [H|[H|[]]]; subst; lia.
+  - intros j L k Hn Hin. destruct j as [|[|j]]; cbn in Hn; try discriminate. inversion Hn; subst L. cbn in Hin. destruct Hin.
+Qed.
+
+(* bounded witness: the fuel the correspondence run uses, and ten times more rounds / four times more fuel *)
+Theorem flatten_with_guard_diverges_bounded :
+  flatten_model 40 400 flat_current_fixes [rec_lib] rec_origin 100 = FFuel /\
+  flatten_model 400 1600 flat_current_fixes [rec_lib] rec_origin 100 = FFuel.
+Proof. split; vm_compute; reflexivity. Qed.
